@@ -77,6 +77,14 @@ class LabObjDerived(AutoParameterObject):
         return 'derived:' + str(self._root).upper()
 
 
+class LabObjVar(AutoParameterObject):
+    """variadic constructor: further options are collected in `options` (stored under the same name, as the documentation requires)"""
+
+    def __init__(self, a, **options):
+        self.a = a
+        self.options = options
+
+
 class LabObjSet(AutoParameterObject):
     """parameter object holding a set (the library's persistence helpers explicitly handle sets)"""
 
@@ -151,6 +159,8 @@ def pcanon(v):
         return ['obj', 'LabObjPlain', {'x': pcanon(v.x)}]
     if isinstance(v, LabObjDerived):
         return ['obj', 'LabObjDerived', {'root': pcanon(v._root)}]
+    if isinstance(v, LabObjVar):
+        return ['obj', 'LabObjVar', {'a': pcanon(v.a), 'options': pcanon(v.options)}]
     if isinstance(v, LabObjSet):
         return ['obj', 'LabObjSet', {'tags': sorted(v.tags)}]
     if isinstance(v, LabChainObj):
@@ -173,6 +183,8 @@ def received_canon(v):
         return ['obj', 'LabObjPlain', {'x': received_canon(v.x)}]
     if isinstance(v, LabObjDerived):
         return ['obj', 'LabObjDerived', {'root': received_canon(v._root)}]
+    if isinstance(v, LabObjVar):
+        return ['obj', 'LabObjVar', {'a': received_canon(v.a), 'options': received_canon(v.options)}]
     if isinstance(v, LabObjSet):
         return ['obj', 'LabObjSet', {'tags': sorted(v.tags)}]
     if isinstance(v, LabChainObj):
